@@ -675,7 +675,10 @@ impl<S: EntryIoStream, E: Entry> Receiver<S, E> {
         let span = tracing::span!(tracing::Level::TRACE, "metrics background queue", sink=?self.inner.name);
         let _enter = span.enter();
         let mut waker_tracker = WakerTracker::new(flush_queue_receiver);
-        let inner = self.inner.clone();
+        // Read the (constant) capacity once instead of holding a second `Arc` to `inner` for the
+        // whole lifetime of this function: an extra clone would make the `Arc::get_mut` check
+        // below fail forever, so a forgotten queue would never notice that all appenders are gone.
+        let queue_capacity = self.inner.queue.capacity();
 
         loop {
             let next_flush = Instant::now() + self.flush_interval;
@@ -685,7 +688,7 @@ impl<S: EntryIoStream, E: Entry> Receiver<S, E> {
                 let (status, entry_count) = self.drain_until_deadline(next_flush);
 
                 waker_tracker.handle_waiting_wakers(
-                    || inner.queue.capacity(),
+                    || queue_capacity,
                     || self.flush_stream(),
                     status,
                     entry_count,
